@@ -62,6 +62,7 @@ class Edge:
     dst: int
     kind: str            # 'n' | 'e' | 's'
     label: Optional[str] = None   # 'T' 'F' 'iter' 'done' 'case' 'nocase'
+    resume: bool = False          # a pending exception / close / return continuing after an inlined finally or with-exit
 
 
 CATCH_ALL = {"BaseException"}
@@ -168,8 +169,8 @@ class CFG:
         self.pred[n.id] = []
         return n.id
 
-    def _edge(self, a: int, b: int, kind="n", label=None):
-        e = Edge(a, b, kind, label)
+    def _edge(self, a: int, b: int, kind="n", label=None, resume=False):
+        e = Edge(a, b, kind, label, resume)
         for x in self.succ[a]:
             if x == e:
                 return
@@ -177,9 +178,9 @@ class CFG:
         self.succ[a].append(e)
         self.pred[b].append(e)
 
-    def _connect(self, dangling: List[Dangling], target: int, kind="n"):
+    def _connect(self, dangling: List[Dangling], target: int, kind="n", resume=False):
         for nid, label in dangling:
-            self._edge(nid, target, kind, label)
+            self._edge(nid, target, kind, label, resume)
 
     def _block(self, stmts: List[ast.stmt], preds: List[Dangling], frames: List[_Frame]) -> List[Dangling]:
         for s in stmts:
@@ -203,10 +204,14 @@ class CFG:
         if n.has_yield:
             self._unwind([(nid, None)], "s", frames)
 
-    def _unwind(self, preds: List[Dangling], kind: str, frames: List[_Frame], loop_target: _LoopFrame = None):
+    def _unwind(self, preds: List[Dangling], kind: str, frames: List[_Frame], loop_target: _LoopFrame = None,
+                resume: bool = False):
         """Route a non-local transfer of control.  kind: 'e' exception, 's' suspension/close,
         'r' return, 'b' break, 'c' continue (the last two stop at `loop_target`)."""
         ekind = kind if kind in ("e", "s") else "n"
+        # resume: the transfer continues after an inlined finally / with-exit completed; the edges are marked so that
+        # rules can tell "the pending exception propagates on" from "the cleanup statement itself raised"
+        R = resume
         i = len(frames)
         while i > 0:
             i -= 1
@@ -217,7 +222,7 @@ class CFG:
                         fr.breaks.extend((p, l, ekind) for p, l in preds)
                     else:
                         for p, l in preds:
-                            self._edge(p, fr.head, "n", l)
+                            self._edge(p, fr.head, "n", l, R)
                     return
                 continue
             if isinstance(fr, _TryFrame):
@@ -225,7 +230,7 @@ class CFG:
                     catch_all = False
                     for h, entry in fr.handlers:
                         for p, l in preds:
-                            self._edge(p, entry, "e", l)
+                            self._edge(p, entry, "e", l, R)
                         names = _handler_names(h)
                         if names is None or names & CATCH_ALL:
                             catch_all = True
@@ -238,7 +243,7 @@ class CFG:
                         names = _handler_names(h)
                         if names is None or names & CATCH_GENEXIT:
                             for p, l in preds:
-                                self._edge(p, entry, "s", l)
+                                self._edge(p, entry, "s", l, R)
                             caught = True
                             break
                     if caught:
@@ -249,14 +254,14 @@ class CFG:
                 if key in fr.copies:
                     join = fr.copies[key]
                     for p, l in preds:
-                        self._edge(p, join, ekind, l)
+                        self._edge(p, join, ekind, l, R)
                     return
                 saved = self._region
                 self._region = saved + ((f"finally:{kind}") if fr.with_item is None else f"withexit:{kind}",)
                 join = self._new("join", None, fr.stmt)
                 fr.copies[key] = join
                 for p, l in preds:
-                    self._edge(p, join, ekind, l)
+                    self._edge(p, join, ekind, l, R)
                 outer = frames[:i]
                 if fr.with_item is not None:
                     x = self._new("with_exit", fr.stmt, fr.stmt, item=fr.with_item)
@@ -267,15 +272,15 @@ class CFG:
                     outs = self._block(fr.body, [(join, None)], outer)
                 self._region = saved
                 # continue the same transfer below this frame
-                self._unwind(outs, kind, outer, loop_target)
+                self._unwind(outs, kind, outer, loop_target, resume=True)
                 return
         # fell off the frame stack
         if kind == "e":
-            self._connect(preds, self.raise_exit, "e")
+            self._connect(preds, self.raise_exit, "e", R)
         elif kind == "s":
-            self._connect(preds, self.closed_exit, "s")
+            self._connect(preds, self.closed_exit, "s", R)
         elif kind == "r":
-            self._connect(preds, self.exit, "n")
+            self._connect(preds, self.exit, "n", R)
         else:  # pragma: no cover
             raise AnalysisError(f"{self.fn.qualname}: break/continue outside loop")
 
@@ -518,7 +523,7 @@ class CFG:
     def no_cleanup_exc(self, e: Edge) -> bool:
         """Edge filter: statements of cleanup code itself (inlined finally bodies / with exits) are assumed not to
         raise, so exceptional edges leaving them are not followed."""
-        return not (e.kind == "e" and self.nodes[e.src].region)
+        return not (e.kind == "e" and self.nodes[e.src].region and not e.resume)
 
     def dominators(self, kinds=("n", "e", "s")) -> Dict[int, Set[int]]:
         reach = self.reachable([self.entry], kinds)
